@@ -120,6 +120,79 @@ def hashcount_cases(ctx):
     return ["q%d %s" % (i, d.hex()) for i, d in enumerate(docs)]
 
 
+def doc_cases(ctx):
+    """Whole documents through Torrent::from_bytes + Pieces::from_torrent vs the model's load + layout:
+    small length vectors (zeros anywhere), repeated paths, the same file name in different
+    directories, single-file form, and the structured documents of the loader stream."""
+    import docgen
+    rng = vlib.rng_for(ctx["seed"], "C06doc")
+    docs = []
+    n = 600 if ctx["tier"] == "quick" else 6000
+    for _ in range(n):
+        nf = rng.randint(1, 5)
+        lens = [rng.choice([0, 0, 1, 2, 3, 4, 5, 8]) for _ in range(nf)]
+        L = rng.choice([1, 2, 3, 4, 8])
+        tot = sum(lens)
+        nh = ceil_div(tot, L) if tot else 0
+        names = [b"a.bin", b"b.bin", b"c", b"a.bin", b"d"]
+        style = rng.random()
+        files = []
+        for i, x in enumerate(lens):
+            if style < 0.35:
+                path = [rng.choice(names)]                       # repeated paths are likely
+            elif style < 0.6:
+                path = [rng.choice([b"d1", b"d2"]), rng.choice(names)]
+            else:
+                path = [b"f%d" % i]
+            files.append({b"length": x, b"path": path})
+        hashes = b"".join(bytes([i + 1]) * 20 for i in range(nh))
+        if nf == 1 and rng.random() < 0.5:
+            info = {b"name": b"n", b"piece length": L, b"pieces": hashes, b"length": lens[0]}
+        else:
+            info = {b"name": b"n", b"piece length": L, b"pieces": hashes, b"files": files}
+        docs.append(docgen.enc({b"info": info}))
+    for _ in range(n // 3):
+        docs.append(docgen.structured(rng)[0])
+    return ["d%d %s" % (i, d.hex()) for i, d in enumerate(docs)]
+
+
+def doc_oracle(case, impl):
+    """The declared (length) list of the document, by the reference loader, against interval arithmetic."""
+    import docgen
+    x = bytes.fromhex(case.split()[1])
+    verdict, want = docgen.ref_load(x)
+    if verdict != "ok" or not impl.startswith("ok"):
+        return None
+    fields = dict(f.split("=", 1) for f in want.split()[1:])
+    if fields["files"] == "-":
+        lens, form = [int(fields["len"])], "S"
+    else:
+        lens, form = [int(e.split(":")[0]) for e in fields["files"][1:-1].split(",")], "M"
+    L = int(fields["pl"])
+    hashes = [h for h in fields["hashes"].split(",") if h] if fields["hashes"] not in ("", "-") else []
+    body = impl[3:].strip()
+    got = []
+    for pce in (body.split("|") if body else []):
+        pos, hx, plen, segs = pce.split(":")
+        got.append((int(pos), hx, int(plen), [tuple(map(int, sg.split(","))) for sg in segs.split(";") if sg]))
+    if len(got) != len(hashes):
+        return "the layout of the loaded document has %d pieces for %d hashes" % (len(got), len(hashes))
+    starts = [0]
+    for v in lens:
+        starts.append(starts[-1] + v)
+    tot = starts[-1]
+    for i, (pos, hidx, plen, segs) in enumerate(got):
+        lo, hi = i * L, min((i + 1) * L, tot)
+        want_segs = []
+        for k, v in enumerate(lens):
+            a, b = max(lo, starts[k]), min(hi, starts[k] + v)
+            if a < b:
+                want_segs.append((k, a - starts[k], b - a, v))
+        if [sg for sg in segs if sg[2] > 0] != want_segs:
+            return "piece %d of the loaded document: segments %r, the declared file table gives %r" % (i, [sg for sg in segs if sg[2] > 0], want_segs)
+    return None
+
+
 def correspondence(ctx):
     hc = hashcount_cases(ctx)
     hci = vlib.run_sharded(ctx["harness"], "load", hc)
@@ -131,6 +204,19 @@ def correspondence(ctx):
     model = vlib.run_sharded(ctx["driver"], "layout", cases)
     dis = vlib.compare(cases, impl, model)
     findings, broken = [], []
+    dc = doc_cases(ctx)
+    dci = vlib.run_sharded(ctx["harness"], "doclayout", dc)
+    dcm = vlib.run_sharded(ctx["driver"], "doclayout", dc)
+    dist["documents_through_loader_and_layout"] = len(dc)
+    for d in vlib.compare(dc, dci, dcm)[:5]:
+        clause = doc_oracle(d["case"], d["impl"]) or "Torrent::from_bytes + Pieces::from_torrent differs from the model's load + layout"
+        findings.append({"case": d["case"][:3000], "impl": d["impl"][:600], "model": d["model"][:600], "violated_clause": clause})
+    for c in dc:
+        k = c.split()[0]
+        if len(findings) < 5 and dci.get(k) == dcm.get(k):
+            clause = doc_oracle(c, dci.get(k, ""))
+            if clause:
+                findings.append({"case": c[:3000], "impl": dci.get(k, "")[:600], "violated_clause": clause, "note": "implementation and model agree; the interval oracle on the declared file table disagrees with both"})
     for d in hc_dis[:5]:
         import docgen
         verdict, want = docgen.ref_load(bytes.fromhex(d["case"].split()[1]))
